@@ -1330,9 +1330,130 @@ def replay_line(ctx, subj, si, fault, base):
                 return
 
 
+# ---------------------------------------------------------------------------
+# histories on one SchemaLoader: a document is refused, then (repaired or
+# not) asked for again - directly, as <import src> of another document and
+# as a base schema.  Each later answer must be the one a fresh loader gives.
+
+_LIB = ("<schema>\n <sectiontype name='la'><key name='k' default='1'/>"
+        "</sectiontype>\n <sectiontype name='lb'><key name='q'/>"
+        "</sectiontype>\n%s</schema>\n")
+X_DOCS = [
+    # (what is wrong, refused document or None = loads, repaired document)
+    ("unknown-type", _LIB % " <section type='zz-nosuch' name='x'/>\n",
+     _LIB % ""),
+    ("truncated", (_LIB % "")[:70], _LIB % ""),
+    ("type-twice", _LIB % " <sectiontype name='la'/>\n", _LIB % ""),
+    ("bad-default", _LIB % " <key name='n' datatype='integer' "
+     "required='yes' default='1'/>\n", _LIB % ""),
+    ("missing-file", "", _LIB % ""),
+    ("no-such-function", _LIB % " <key name='d' datatype='os.nosuchf9'/>\n",
+     _LIB % ""),
+    # datatype names that lead to something unusual: whatever the answer
+    # is, it is the same the second time and on a fresh loader
+    ("module-datatype", None, _LIB % " <key name='d' datatype='os.path'/>\n"),
+    ("package-datatype", None, _LIB % " <key name='d' datatype='json'/>\n"),
+    ("class-datatype", None,
+     _LIB % " <key name='d' datatype='json.decoder.JSONDecoder'/>\n"),
+    ("int-valued-datatype", None,
+     _LIB % " <key name='d' datatype='errno.ENOENT'/>\n"),
+]
+
+
+def run_loader_histories(ctx):
+    import ZConfig
+    import ZConfig.loader
+    res = ctx.res
+    d = os.path.join(os.path.realpath(ctx.tmp), "lh dir")
+    os.makedirs(d, exist_ok=True)
+    xpath = os.path.join(d, "lib x.xml")
+    ypath = os.path.join(d, "imports.xml")
+    zpath = os.path.join(d, "extends.xml")
+    with open(ypath, "w") as f:
+        f.write("<schema><import src='lib%20x.xml'/>"
+                "<section type='la' name='*' attribute='a'/></schema>")
+    with open(zpath, "w") as f:
+        f.write("<schema extends='lib%20x.xml'>"
+                "<section type='lb' name='*' attribute='b'/></schema>")
+
+    def load(loader, path):
+        try:
+            sch = loader.loadURL(path)
+        except ZConfig.ConfigurationError as e:
+            return ("reject", type(e).__name__)
+        except Exception as e:  # noqa
+            return ("raised", type(e).__name__)
+        dg = schema_digest(sch)
+        dg.pop("url", None)
+        try:
+            cfg, _ = ZConfig.loadConfigFile(sch, io.StringIO(
+                "<la>\n</la>\n" if path == ypath else
+                "<lb>\n q 1\n</lb>\n" if path == zpath else ""))
+            out = "loads"
+        except ZConfig.ConfigurationError as e:
+            out = type(e).__name__
+        return ("ok", hashlib.sha1(repr(dg).encode()).hexdigest(), out)
+
+    for hi, (what, bad, good) in enumerate(X_DOCS):
+        for repaired in (True, False):
+            for order in (("x", "y", "z"), ("y", "x", "z"), ("z", "y", "x")):
+                if not ctx.mine(hi * 7 + repaired * 3 + len(order[0])
+                                + ord(order[0][0])):
+                    continue
+                kept = ZConfig.loader.SchemaLoader()
+                first = good if bad is None else bad
+                if what == "missing-file":
+                    if os.path.exists(xpath):
+                        os.remove(xpath)
+                else:
+                    with open(xpath, "w") as f:
+                        f.write(first)
+                o1 = load(kept, xpath)
+                o1b = load(kept, xpath)
+                res.evaluations += 1
+                res.count("loader_histories")
+                case = {"family": "loader-history", "what": what,
+                        "repaired": repaired, "order": list(order)}
+                if o1b != o1:
+                    res.violate(
+                        "same-document-asked-twice-of-one-loader-differs",
+                        case, list(o1), list(o1b),
+                        detail="%s: first %r, second %r" % (what, o1, o1b),
+                        vsig="lh-twice|%s|%s|%s" % (what, o1[0], o1b[0]))
+                    continue
+                if bad is not None and o1[0] == "ok":
+                    res.count("loader_history_first_load_not_refused")
+                if repaired and bad is not None:
+                    with open(xpath, "w") as f:
+                        f.write(good)
+                for step in order:
+                    path = {"x": xpath, "y": ypath, "z": zpath}[step]
+                    if step == "x" and o1[0] == "ok":
+                        # (a loader keeps what it has loaded, by URL)
+                        continue
+                    got = load(kept, path)
+                    want = load(ZConfig.loader.SchemaLoader(), path)
+                    res.count("loader_history_steps")
+                    res.sig("lh|%s|%s|%s|%s" % (what, repaired, step,
+                                                want[0]))
+                    if got != want:
+                        res.violate(
+                            "loader-that-met-a-refused-document-answers-"
+                            "differently", dict(case, step=step),
+                            list(want), list(got),
+                            detail="%s (%s), then %s: kept loader %r, "
+                            "fresh loader %r" % (
+                                what, "repaired" if repaired else "as is",
+                                os.path.basename(path), got, want),
+                            vsig="lh|%s|%s|%s" % (what, step, got[0]))
+                        break
+    shutil.rmtree(d, ignore_errors=True)
+
+
 def run_shard(ctx):
     res = ctx.res
     res.count("unjudged", 0)
+    run_loader_histories(ctx)
     scs = scenarios(ctx)
     with Machinery(ctx) as mach:
         for si, sc in enumerate(scs):
@@ -1363,6 +1484,9 @@ def finalize(m, tier):
 
 
 def replay(ctx, case):
+    if case.get("family") == "loader-history":
+        ctx.mine = lambda i: True
+        return run_loader_histories(ctx)
     sc = case["scenario"]
     fault = case.get("fault")
     si = case.get("scenario_index", 0)
